@@ -245,7 +245,7 @@ fn check_run(key: &str, m: Method, sc: &Scene, script: &[(usize, Ans)], base_run
 }
 
 fn explore(keybase: &str, m: Method, sc: &Scene, base_run: &LowRun, prefix: Vec<(usize, Ans)>, d: usize, outs: &mut Vec<CaseOut>, only: Option<&str>) {
-    let key = format!("{}:{}", keybase, prefix.iter().map(|(k, a)| format!("{}{}", k, match a { Ans::Interrupt => "I", Ans::Modified(f) if *f == 1.0 => "M", Ans::Modified(_) => "D", Ans::Continue => "C" })).collect::<Vec<_>>().join("."));
+    let key = format!("{}:{}", keybase, prefix.iter().map(|(k, a)| format!("{}{}", k, match a { Ans::Interrupt => "I", Ans::Modified(f) if *f == 1.0 => "M", Ans::Modified(_) => "D", Ans::Continue => "C", Ans::XOut(_) => "X" })).collect::<Vec<_>>().join("."));
     let run_it = only.map(|o| o == key).unwrap_or(true);
     let ck = check_run(&key, m, sc, &prefix, Some(base_run));
     let nc = ck.ncallbacks;
